@@ -67,9 +67,12 @@ def relates_then_deletes(prog):
     return False
 
 
-def make_spec(shape, strategy, exclude=()):
+def make_spec(shape, strategy, exclude=(), variant=None):
     if shape == 'articles':
         spec = envs.shape_articles({'strategy': strategy}, exclude=list(exclude))
+        if variant == 'o2o':
+            # Article.tags is a scalar (uselist=False): a one-to-one relationship
+            spec['classes'][1]['rels'][0]['backref_kw'] = {'uselist': False}
     else:
         spec = envs.shape_m2m({'strategy': strategy})
     spec['shape'] = shape
@@ -185,7 +188,7 @@ class C05(Prop):
             'actually restored); distinct = (history, target, relationships)')
     assumptions = ['dotted paths: one cyclic two-level path per class and shape (not every path of every depth)',
                    'that the revert transaction is itself versioned correctly is C01/C02/C11 (history_all)']
-    needs_tags = ['several_paths_one_prefix', 'target_delete_version', 'entity_deleted_now', 'rel:o2m', 'rel:m2m', 'rel:m2o', 'middle_version', 'excluded_col',
+    needs_tags = ['several_paths_one_prefix', 'variant:o2o', 'target_delete_version', 'entity_deleted_now', 'rel:o2m', 'rel:m2m', 'rel:m2o', 'middle_version', 'excluded_col',
                   'repeated_revert', 'dotted_path', 'dotted_second_level_entity']
 
     def counts(self, tier):
@@ -217,6 +220,29 @@ class C05(Prop):
                     out.append(st)
                 prog = out
             yield {'spec': spec, 'shape': shape, 'program': prog, 'excluded': excl}
+        # one-to-one (scalar one-to-many): the child is replaced, removed or added between versions - reverting with the
+        # relationship named restores the child the version shows and removes the one related now
+        for _ in range(4 if tier == 'quick' else 60):
+            spec = make_spec('articles', rng.choice(['validity', 'subquery']), variant='o2o')
+            prog = [['add', 'Article', [1], {'name': 1}], ['commit']]
+            cur = None
+            for tno in range(rng.choice([2, 3, 4])):
+                k = rng.random()
+                if cur is None:
+                    cur = 1 + tno
+                    prog += [['add', 'Tag', [cur], {'name': tno}], ['setrel', 'Tag', [cur], 'article', 'Article', [1]]]
+                elif k < 0.35:
+                    prog += [['del', 'Tag', [cur]]]
+                    cur = None
+                elif k < 0.6:
+                    prog += [['setrel', 'Tag', [cur], 'article', 'Article', None]]
+                    cur = None
+                elif k < 0.8:
+                    prog += [['set', 'Tag', [cur], 'name', 5 + tno]]
+                else:
+                    prog += [['set', 'Article', [1], 'name', 5 + tno]]
+                prog += [['commit']]
+            yield {'spec': spec, 'shape': 'articles', 'program': prog, 'excluded': [], 'family': 'one_to_one', 'variant': 'o2o'}
         # a related entity shown by SEVERAL second-level parents and deleted since: it is re-created when the recursion
         # reaches it first and must be linked to every parent that shows it
         for _ in range(3 if tier == 'quick' else 40):
@@ -304,6 +330,8 @@ class C05(Prop):
         out.tags.append('shape:' + case['shape'])
         if case.get('excluded'):
             out.tags.append('excluded_col')
+        if case.get('variant'):
+            out.tags.append('variant:' + case['variant'])
         if obs.get('history_error'):
             out.tags.append('history_error:' + obs['history_error']['type'])
             return out
